@@ -265,6 +265,7 @@ def run_family(base, flavor, sc, engine, src, envs, seq, tag):
                 except OSError:
                     pass
                 e2 = flavor.fastcc_env({"TMPDIR": d})
+                e2.update(base.NATIVE_ENV)        # an assert() of the runtime inside nanoc is an abort, not an ASan report
                 e2.update(env)
                 r = sh([flavor.nanoc, "main.nano", "-o", "main.bin", "--verbose"], cwd=d, cpu=120, san=True, env=e2)
                 o.binary = os.path.exists(os.path.join(d, "main.bin"))
@@ -345,3 +346,126 @@ def judge_slice(base, engine, kind, L, s, c, control, o):
     if n == 0 or any(exp[k:k + n] == elems for k in range(len(exp) - n + 1)):
         return ("clamped" if elems == exp else "clamped-shorter"), ""
     return "value", "slice (start %d, length %d) of %d element(s) yields %r, the documented clamping covers %r" % (s, c, L, elems, exp)
+
+
+# ---------------------------------------------------------------------------------------------------------
+# the whole family, called from c08.run
+# ---------------------------------------------------------------------------------------------------------
+def sample_families(ctx, engine, fams):
+    """quick tier: one family per (construct, kind, mutation, via) with rotating length and construction"""
+    rng = ctx.rng("implicit", engine)
+    strata = {}
+    for f in fams:
+        strata.setdefault((f.construct, f.kind, f.mut, f.via), []).append(f)
+    out = []
+    for j, key in enumerate(sorted(strata)):
+        cands = strata[key]
+        out.append(cands[(j + rng.randrange(len(cands))) % len(cands)])
+    return out
+
+
+def run_all(base, ctx, flavor, sc, pmap):
+    hist, skipped, nonstop = {}, {}, {}
+    evaluated = {e: 0 for e in ENGINES}
+    ctl = {e: [0, 0] for e in ENGINES}
+    distinct = set()
+    samples = []
+    n_proc = 0
+    timeouts = 0
+    jobs = []
+    for eng in ENGINES:
+        fams = families(eng)
+        if ctx.quick():
+            fams = sample_families(ctx, eng, fams)
+        jobs += [("loop", eng, f) for f in fams]
+        sl = [(k, c, L) for k in ("int", "string") for c in ("literal", "pushed") for L in (0, 4)]
+        if ctx.quick():
+            sl = [("int", "literal", 4), ("string", "pushed", 4)]
+        jobs += [("slice", eng, x) for x in sl]
+    jobs.sort(key=lambda j: {"native": 0, "eval": 1, "nano_vm": 2, "vm": 3}[j[1]])
+
+    def do(t):
+        seq, (what, eng, x) = t
+        if what == "loop":
+            ms = x.ms()
+            src = program(base, x)
+            return what, eng, x, ms, src, run_family(base, flavor, sc, eng, src, [{"C08_IDX": str(m)} for m, _ in ms], seq, "l")
+        k, c, L = x
+        cases = [(0, L, True), (0, 1, True)] + [(s, cnt, False) for s, cnt in slice_cases(L)]
+        src = slice_program(base, eng, k, c, L)
+        return what, eng, x, cases, src, run_family(base, flavor, sc, eng, src,
+                                                     [{"C08_IDX": str(s), "C08_IDX2": str(cnt)} for s, cnt, _ in cases], seq, "s")
+
+    for what, eng, x, cases, src, outs in pmap(do, list(enumerate(jobs))):
+        n_proc += len(outs)
+        timeouts += sum(1 for o in outs if o.timeout or (o.skip or "").endswith("timeout"))
+        if what == "loop":
+            f = x
+            verdicts = []
+            for (m, role), o in zip(cases, outs):
+                verdicts.append(("skip:" + o.skip, "") if o.skip else ("skip:timeout", "") if o.timeout else judge_loop(base, f, m, o))
+            cok = all(v[0] == "ok" for (m, role), v in zip(cases, verdicts) if role == "ctl")
+            for (m, role), v in zip(cases, verdicts):
+                if role == "ctl":
+                    ctl[eng][1] += 1
+                    ctl[eng][0] += v[0] == "ok"
+            for (m, role), (v, d), o in zip(cases, verdicts, outs):
+                if role == "ctl":
+                    continue
+                if not cok or v.startswith("skip:") or v == "setup-differs":
+                    bad = [vv[0] for (mm, rr), vv in zip(cases, verdicts) if rr == "ctl" and vv[0] != "ok"]
+                    sk = "%s@%s|%s|%s|%s|%s" % (eng, f.construct, f.mut, f.kind, f.cons,
+                                                  v if (v.startswith("skip:") or v == "setup-differs") else "control:" + bad[0])
+                    skipped[sk] = skipped.get(sk, 0) + 1
+                    continue
+                evaluated[eng] += 1
+                distinct.add((eng, f.construct, f.kind, f.L, f.cons, f.mut, f.via, m))
+                hk = "%s@%s|%s|%s|%s" % (eng, f.construct, f.mut, role, v)
+                hist[hk] = hist.get(hk, 0) + 1
+                if v in ("stopped", "ended-early"):
+                    if v == "stopped" and len(samples) < 4 and eng not in [s["engine"] for s in samples]:
+                        samples.append({"engine": eng, "family": f.name(), "mutation_at_turn": m, "rc": o.rc, "signal": o.sig,
+                                        "stderr_tail": o.stderr.strip()[-140:]})
+                    continue
+                key = "%s@%s|%s|%s|%s|%s" % (eng, f.construct, f.mut, f.kind, f.via, v)
+                nonstop[key] = nonstop.get(key, 0) + 1
+                turns, fault, flen = simulate(f.L, f.mut, m)
+                ctx.violation(key, "%s: `%s` over an array<%s> of %d (%s) whose %s shrinks it (%s at turn %d): the read of turn %d is out of "
+                                   "range and is not stopped: %s %s\nfamily %s\nrc=%s sig=%s\n--- stdout (C08 lines)\n%s\n--- stderr\n%s" % (
+                                       base.ENGINE_TEXT[eng], "for x in a" if f.construct == "forin" else f.construct, base.TYPE[f.kind], f.L,
+                                       f.cons, "body" if f.via == "direct" else f.via, f.mut, m, fault, v, d, f.name(), o.rc, o.sig,
+                                       "\n".join(l for l in o.lines if l.startswith("C08:"))[-500:], o.stderr[-500:]),
+                              {"main.nano": src, "stdout.txt": o.text, "stderr.txt": o.stderr,
+                               "cmd.txt": "C08_IDX=%d <engine command as in the explicit cells> main.nano\n" % m})
+        else:
+            k, c, L = x
+            verdicts = [("skip:" + o.skip, "") if o.skip else ("skip:timeout", "") if o.timeout else judge_slice(base, eng, k, L, s, cnt, ctlf, o)
+                        for (s, cnt, ctlf), o in zip(cases, outs)]
+            cok = all(v[0] == "ok" for (s, cnt, ctlf), v in zip(cases, verdicts) if ctlf)
+            for (s, cnt, ctlf), v in zip(cases, verdicts):
+                if ctlf:
+                    ctl[eng][1] += 1
+                    ctl[eng][0] += v[0] == "ok"
+            for (s, cnt, ctlf), (v, d), o in zip(cases, verdicts, outs):
+                if ctlf:
+                    continue
+                cls = slice_class(L, s, cnt)
+                if not cok or v.startswith("skip:"):
+                    sk = "%s@slice|%s|%s|%s" % (eng, k, c, v if v.startswith("skip:") else "control")
+                    skipped[sk] = skipped.get(sk, 0) + 1
+                    continue
+                evaluated[eng] += 1
+                distinct.add((eng, "slice", k, c, L, s, cnt))
+                hk = "%s@slice|%s|%s" % (eng, cls, v)
+                hist[hk] = hist.get(hk, 0) + 1
+                if v in ("stopped", "clamped", "clamped-shorter"):
+                    continue
+                key = "%s@slice|%s|%s" % (eng, cls, v)
+                nonstop[key] = nonstop.get(key, 0) + 1
+                ctx.violation(key, "%s: (array_slice a %d %d) on an array<%s> of %d (%s): %s %s\nrc=%s sig=%s\n%s\n%s" % (
+                    base.ENGINE_TEXT[eng], s, cnt, base.TYPE[k], L, c, v, d, o.rc, o.sig, o.text[-300:], o.stderr[-600:]),
+                    {"main.nano": src, "stdout.txt": o.text, "stderr.txt": o.stderr,
+                     "cmd.txt": "C08_IDX=%d C08_IDX2=%d <engine command> main.nano\n" % (s, cnt)})
+    return {"evaluated": evaluated, "controls": {e: "%d/%d passed" % tuple(ctl[e]) for e in ENGINES}, "outcomes": dict(sorted(hist.items())),
+            "skipped": dict(sorted(skipped.items())), "not_stopped_by_key": dict(sorted(nonstop.items())), "samples": samples,
+            "processes": n_proc, "timeouts": timeouts, "distinct": distinct}
